@@ -1230,7 +1230,7 @@ def mk_structs(t, form, term, cols, ids, extra_row=None, facts=(), unit=None, ar
 
 def gen_structs(rng):
     t = gen_st_type(rng, 1)
-    form = rng.choice(["fact", "fact", "head", "head", "eq", "eq", "eqrev", "copy", "copy", "undecl", "unit-undecl"])
+    form = rng.choice(["fact", "fact", "head", "head", "eq", "eq", "eqrev", "copy", "copy", "copy", "undecl", "unit-undecl"])
     ok = rng.random() < 0.4
     ctx, term, unit, facts = StCtx(), None, None, []
     if form == "fact":
@@ -1298,7 +1298,7 @@ def gen_basefacts(rng):
     decl_list, facts = [], []
     for k in range(npred):
         name = "p%d" % ids[k]
-        mine = [rng.choice(shapes) for _ in range(rng.choice([1, 1, 2, 3]))]
+        mine = [rng.choice(shapes) for _ in range(rng.choice([1, 2, 2, 3]))]
         wrong = rng.choice(mine) if k in bad_preds else None
         admitted = T.dedup([s for s in mine if s != wrong])
         if not admitted:
@@ -1750,7 +1750,9 @@ def run(ck):
         "the correspondence",
         "the model is tied to analysis/boundscheck.go + infercontext.go by differential runs only (sampled)",
         "the violation verdict itself uses no model: real checker, real engine, real CheckTypeBounds",
-        "caller-supplied facts are admitted only if CheckTypeBounds accepts them (the quantifier of the property)"])
+        "caller-supplied facts are admitted only if CheckTypeBounds accepts them (the quantifier of the property)",
+        "stream `structs`: property-level oracle on Go's outputs only (accepted => every stored fact passes CheckTypeBounds); "
+        "struct values always carry exactly the declared field names (an omitted optional field is the known finding F7c)"])
 
 
 def replay(ck, path):
@@ -1781,15 +1783,23 @@ META = {
             "coq/Analysis/BoundsInfer.v of inferRelTypes / getOrInferRelTypes, self-recursion through `visiting`, the order in "
             "which BoundsCheck reaches the predicates as an explicit schedule): when the inferred relation types, taken as "
             "declarations, certify the whole program, every fact of a declared predicate is a member of a declared row. "
+            "A corollary (base_facts_in_text_conform_partial) states the guarantee for the base facts written in the text: "
+            "every one of them, of whichever predicate and at whichever position, is a member of a row of its own predicate. "
             "Every run generates programs (fragment and beyond: pairs, maps, structs, tagged unions, constructors, accessors, "
             ":match_*; two weighted templates added after seeding: undeclared recursive / copied / negated intermediate "
             "predicates over multi-row step relations with the consumer admitting the types up to a chosen recursion depth, and "
             "a wide-typed binder refined by a multi-row premise with the head admitting one / all / all-but-one of the rows, in "
-            "all row and clause orders), runs the real AnalyzeAndCheckBounds(ErrorForBoundsMismatch), evaluates every accepted program with the "
+            "all row and clause orders; two more after the second round: struct-typed declarations with required and OPTIONAL "
+            "fields whose values are supplied - every declared field, right or wrong type per field - by base facts, struct "
+            "literals / fn:struct in heads and equalities, copies from declared struct predicates and undeclared intermediates; "
+            "and base facts written in the text for several declared predicates whose argument-type tuples coincide, well or "
+            "ill typed for their own declaration, in all textual orders), runs the real AnalyzeAndCheckBounds(ErrorForBoundsMismatch), evaluates every accepted program with the "
             "real engine and judges every stored fact of a declared predicate with the real TypeChecker.CheckTypeBounds (the "
             "violation verdict, on Go's own outputs), and compares the accept/reject verdict with the model inside Coq.",
     "note": "Partial: the theorem covers the fragment above and needs the exactness certificates the model computes; built-in "
             "function types, :match_*, transforms, modes, mutual recursion between undeclared predicates are not modelled. Trusted: Coq kernel + "
             "vm_compute; model tied to the code by sampled differential runs. Known findings outside the main stream: N92 "
-            "(intersection under-approximated; a fourth, one-variable witness with partially overlapping unions was added), N93 (mode(\"+\") head variables), F7b/F7c/F7f shapes of C12.",
+            "(intersection under-approximated; a fourth, one-variable witness with partially overlapping unions was added), N93 (mode(\"+\") head variables), F7b/F7c/F7f shapes of C12. "
+            "The struct stream is decided on Go's own outputs (struct constants are not in the Datalog model; only its copy form "
+            "goes through the model) and keeps away from F7c by supplying exactly the declared field names.",
 }
